@@ -149,7 +149,7 @@ def parse_verus(run, text, blocks, linemap):
             'postcondition not satisfied', 'precondition not satisfied', 'invariant not satisfied', 'assertion failed',
             'possible arithmetic', 'possible division by zero', 'possible bit shift', 'decreases not satisfied', 'recommendation not met',
             'index out of bounds', 'unreachable', 'panic', 'possible', 'cannot show', 'could not prove', 'loop invariant', 'Resource limit', 'rlimit',
-            'termination', 'failed'))
+            'termination', 'failed', 'unable to prove', 'post-condition', 'pre-condition'))
         if d.get('code') or not spans or not is_verif:
             hard_errors.append(msg + ' @' + ','.join(str(x[0]) for x in sp_lines)); continue
         if 'Resource limit' in msg or 'rlimit' in msg:
